@@ -209,7 +209,7 @@ func genC06(t *rapid.T) c06Scenario {
 	)
 	n := rapid.IntRange(1, 30).Draw(t, "nEvals")
 	for i := 0; i < n; i++ {
-		e := evalStep{DtMs: rapid.SampledFrom([]int{1, 10, 50, 200, 200, 1000, 10000}).Draw(t, "dtMs")}
+		e := evalStep{DtMs: rapid.SampledFrom([]int{1, 10, 50, 200, 200, 1000, 10000, 10000, 60000, 601000, 900000, 7200000, 86400000}).Draw(t, "dtMs")}
 		for s := 0; s < sc.Sensors; s++ {
 			e.Vals = append(e.Vals, valGen.Draw(t, "val"))
 		}
